@@ -3,11 +3,19 @@ pub use std::sync::Arc;
 pub struct Stream { pub id: u32 }
 impl Stream { pub fn id(&self) -> (r: u32) ensures r == self.id { self.id } pub fn reader(&self) -> () { () } }
 // write half: history of accepted bytes; `failed` = some write_all returned Err (a prefix of that buffer may be on the wire)
-pub struct WriteHalf { pub ghost written: Seq<u8>, pub ghost failed: bool }
+// `shut` = the write direction has been shut down (the other endpoint sees end of stream after everything written before)
+pub struct WriteHalf { pub ghost written: Seq<u8>, pub ghost failed: bool, pub ghost shut: bool }
 impl WriteHalf {
+    // end of stream goes to the endpoint after, and only after, everything written: nothing is written once the half is shut down
+    #[verifier::external_body]
+    pub fn shutdown(&mut self) -> (r: io::Result<()>)
+        ensures final(self).shut, final(self).written == old(self).written, final(self).failed == old(self).failed
+    { unimplemented!() }
     #[verifier::external_body]
     pub fn write_all(&mut self, buf: &[u8]) -> (r: io::Result<()>)
-        ensures r is Ok ==> final(self).written == old(self).written + buf@ && final(self).failed == old(self).failed,
+        requires !old(self).shut,
+        ensures final(self).shut == old(self).shut,
+            r is Ok ==> final(self).written == old(self).written + buf@ && final(self).failed == old(self).failed,
             r is Err ==> final(self).failed && exists|k: int| 0 <= k < buf@.len() + 1 && #[trigger] buf@.subrange(0, k) == buf@.subrange(0, k) && final(self).written == old(self).written + buf@.subrange(0, k),
     { unimplemented!() }
 }
@@ -25,28 +33,42 @@ impl ReadHalf {
     { unimplemented!() }
 }
 // the stream's sending side as the forwarder sees it
-pub struct FwdLog { pub ghost sent: Seq<u8>, pub ghost failed: bool, pub ghost fin: bool, pub ghost misrouted: bool }
+// fin = the end of this direction's data has been announced to the peer; after_fin = something was submitted after that
+pub struct FwdLog { pub ghost sent: Seq<u8>, pub ghost failed: bool, pub ghost fin: bool, pub ghost misrouted: bool, pub ghost after_fin: bool }
 pub struct SendError;
 pub struct StreamW { pub id: u32 }
 impl StreamW {
     #[verifier::external_body]
     pub fn send_data(&self, data: Bytes, fx: &mut Ghost<FwdLog>) -> (r: std::result::Result<(), SendError>)
-        ensures r is Ok ==> final(fx)@.sent == old(fx)@.sent + data@ && final(fx)@.failed == old(fx)@.failed && final(fx)@.fin == old(fx)@.fin && final(fx)@.misrouted == old(fx)@.misrouted,
-                r is Err ==> final(fx)@.sent == old(fx)@.sent && final(fx)@.failed && final(fx)@.fin == old(fx)@.fin && final(fx)@.misrouted == old(fx)@.misrouted
+        ensures final(fx)@.fin == old(fx)@.fin && final(fx)@.misrouted == old(fx)@.misrouted && final(fx)@.after_fin == (old(fx)@.after_fin || old(fx)@.fin),
+                r is Ok ==> final(fx)@.sent == old(fx)@.sent + data@ && final(fx)@.failed == old(fx)@.failed,
+                r is Err ==> final(fx)@.sent == old(fx)@.sent && final(fx)@.failed
     { unimplemented!() }
+    // Stream::send_fin (proved in group `stream`): the end marker is queued behind everything submitted before
+    #[verifier::external_body]
+    pub fn send_fin(&self, fx: &mut Ghost<FwdLog>)
+        ensures final(fx)@.fin, final(fx)@.sent == old(fx)@.sent, final(fx)@.failed == old(fx)@.failed, final(fx)@.misrouted == old(fx)@.misrouted, final(fx)@.after_fin == old(fx)@.after_fin
+    { }
 }
 
 // the session's sending side as the client-side forwarders see it: data submitted for stream `sid` extends `sent`;
-// data submitted under any other id sets `misrouted`
+// data submitted under any other id sets `misrouted`; the only control frame a forwarder may send is FIN of its own stream
 pub struct SessionW { pub ghost sid: u32 }
 impl SessionW {
     #[verifier::external_body]
     pub fn write_data_frame(&self, stream_id: u32, data: Bytes, fx: &mut Ghost<FwdLog>) -> (r: std::result::Result<(), SendError>)
-        ensures final(fx)@.fin == old(fx)@.fin,
+        ensures final(fx)@.fin == old(fx)@.fin, final(fx)@.after_fin == (old(fx)@.after_fin || old(fx)@.fin),
                 r is Ok ==> final(fx)@.failed == old(fx)@.failed
                     && (stream_id == self.sid ==> final(fx)@.sent == old(fx)@.sent + data@ && final(fx)@.misrouted == old(fx)@.misrouted)
                     && (stream_id != self.sid ==> final(fx)@.sent == old(fx)@.sent && final(fx)@.misrouted),
                 r is Err ==> final(fx)@.sent == old(fx)@.sent && final(fx)@.failed && final(fx)@.misrouted == old(fx)@.misrouted
+    { unimplemented!() }
+    #[verifier::external_body]
+    pub fn write_control_frame(&self, frame: Frame, fx: &mut Ghost<FwdLog>) -> (r: std::result::Result<(), SendError>)
+        ensures final(fx)@.sent == old(fx)@.sent, final(fx)@.after_fin == old(fx)@.after_fin,
+                final(fx)@.failed == (old(fx)@.failed || r is Err),
+                (frame.cmd == Command::Fin && frame.stream_id == self.sid) ==> final(fx)@.fin && final(fx)@.misrouted == old(fx)@.misrouted,
+                !(frame.cmd == Command::Fin && frame.stream_id == self.sid) ==> final(fx)@.fin == old(fx)@.fin && final(fx)@.misrouted
     { unimplemented!() }
 }
 // a scheduling point: no effect on any state the contracts talk about
